@@ -211,6 +211,11 @@ func (v *VMValue) UnmarshalJSON(input []byte) error {
 		}
 		err := json.Unmarshal(input, &v1)
 		if err == nil {
+			for _, item := range v1.Value.List {
+				if item == nil {
+					return errors.New("数组元素不能为 null")
+				}
+			}
 			v.Value = NewArrayValRaw(v1.Value.List).Value
 		}
 		return err
@@ -251,9 +256,12 @@ func (v *VMValue) UnmarshalJSON(input []byte) error {
 		}
 		err := json.Unmarshal(input, &v1)
 		if err == nil {
-			if val, ok := builtinValues[v1.Value.Name]; ok {
-				v.Value = val.Value
+			val, ok := builtinValues[v1.Value.Name]
+			if !ok {
+				// a tag without its payload would make every later use panic
+				return errors.New("未知的内置函数: " + v1.Value.Name)
 			}
+			v.Value = val.Value
 			return nil
 		}
 		return err
@@ -272,7 +280,7 @@ func (v *VMValue) UnmarshalJSON(input []byte) error {
 		}
 		return err
 	}
-	return nil
+	return errors.New("未知的类型标记")
 }
 
 func VMValueFromJSON(data []byte) (*VMValue, error) {
